@@ -110,18 +110,21 @@ func (f *c14Fn) end() token.Pos {
 }
 
 type c14Eng struct {
-	p        *core.Program
-	fns      map[*ast.BlockStmt]*c14Fn
-	decls    map[*packages.Package]map[*types.Func]*ast.FuncDecl
-	noInline map[*types.Func]bool
-	objID    map[types.Object]int
-	nodeID   map[ast.Node]int
-	nctx     int
+	p          *core.Program
+	fns        map[*ast.BlockStmt]*c14Fn
+	decls      map[*packages.Package]map[*types.Func]*ast.FuncDecl
+	noInline   map[*types.Func]bool
+	keepStruct map[string]bool     // struct types (pkgpath.Name) whose fields are never replaced by their initial value
+	assigned   map[*types.Var]bool // fields assigned somewhere in their package (lazily filled)
+	scanned    map[*types.Package]bool
+	objID      map[types.Object]int
+	nodeID     map[ast.Node]int
+	nctx       int
 }
 
 func c14NewEng(p *core.Program) *c14Eng {
 	return &c14Eng{p: p, fns: map[*ast.BlockStmt]*c14Fn{}, decls: map[*packages.Package]map[*types.Func]*ast.FuncDecl{},
-		noInline: map[*types.Func]bool{}, objID: map[types.Object]int{}, nodeID: map[ast.Node]int{}}
+		noInline: map[*types.Func]bool{}, keepStruct: map[string]bool{}, assigned: map[*types.Var]bool{}, scanned: map[*types.Package]bool{}, objID: map[types.Object]int{}, nodeID: map[ast.Node]int{}}
 }
 
 func (e *c14Eng) oid(o types.Object) int {
@@ -194,7 +197,7 @@ func (e *c14Eng) mkFn(pk *packages.Package, body *ast.BlockStmt, ftype *ast.Func
 			}
 		case *ast.UnaryExpr:
 			if x.Op == token.AND {
-				if o := objOf(info, x.X); o != nil {
+				if o := objOf(info, x.X); o != nil && !e.immutableStruct(o.Type()) {
 					f.untrack[o] = true
 				}
 			}
@@ -206,7 +209,7 @@ func (e *c14Eng) mkFn(pk *packages.Package, body *ast.BlockStmt, ftype *ast.Func
 				if s := info.Selections[sel]; s != nil && s.Kind() == types.MethodVal {
 					if _, ptrRecv := s.Obj().Type().(*types.Signature).Recv().Type().(*types.Pointer); ptrRecv {
 						if o := objOf(info, sel.X); o != nil {
-							if _, isPtr := o.Type().Underlying().(*types.Pointer); !isPtr {
+							if _, isPtr := o.Type().Underlying().(*types.Pointer); !isPtr && !e.immutableStruct(o.Type()) {
 								f.untrack[o] = true
 							}
 						}
@@ -216,7 +219,11 @@ func (e *c14Eng) mkFn(pk *packages.Package, body *ast.BlockStmt, ftype *ast.Func
 		}
 		return true
 	})
+	e.fns[body] = f // before looking at callees: a function may hand a literal to itself
 	for _, l := range lits {
+		if e.confinedLit(f, l) {
+			continue // runs only where the exploration follows it (c14_closures.go)
+		}
 		mark := func(e ast.Expr) {
 			if o := objOf(info, e); o != nil && (o.Pos() < l.Pos() || o.Pos() >= l.End()) {
 				f.untrack[o] = true
